@@ -146,7 +146,7 @@ def parse_template(path):
                 rest = m.group(2)
                 # path ends at first opt token; opts are known keywords
                 toks = split_opts(rest)
-                optkw = ("bound(", "attr(", "ret(", "mono(", "nogenerics", "nowhere", "keepvis", "keepattrs", "desugar(",
+                optkw = ("sigsubst(", "bound(", "attr(", "ret(", "mono(", "nogenerics", "nowhere", "keepvis", "keepattrs", "desugar(",
                          "trusted", "rename(", "nobody", "novis")
                 ptoks, otoks = [], []
                 for t in toks:
@@ -326,6 +326,16 @@ def assemble_item(d, info, src, srcfile_label, log):
             sig_a, sig_b = it["sig"]
             m = re.search(rb"\bfn\s+(" + re.escape(it["name"].encode()) + rb")\b", src[sig_a:sig_b])
             add(sig_a + m.start(1), sig_a + m.end(1), d.optarg("rename"), "RENAME")
+        for o in d.opts:
+            if o.startswith("sigsubst("):
+                # textual substitution inside the signature (associated types of a dropped trait header)
+                frm, to = [x.strip() for x in o[9:-1].split("=>")]
+                sp = it["sig"]
+                hits = list(re.finditer(re.escape(frm.encode()), src[sp[0]:sp[1]]))
+                if not hits:
+                    raise Undecided(f"{d.path}: sigsubst: `{frm}` not found in the signature -- anchor lost")
+                for m_ in hits:
+                    add(sp[0] + m_.start(), sp[0] + m_.end(), to, "MONO")
         for o in d.opts:
             if o.startswith("bound("):
                 frm, to = [x.strip() for x in o[6:-1].split("=>")]
